@@ -38,6 +38,7 @@ func TestVerifC25(t *testing.T) {
 		var callsD [][2]int64
 		var outsD []int64
 		resyncs, steady := 0, 0
+		refPTS, haveRef := int64(0), false
 		for k := 0; k < length; k++ {
 			// frame interval in ticks and the matching wall-clock step
 			ticks := int64(1 + r.Intn(rate/10+2))
@@ -55,6 +56,11 @@ func TestVerifC25(t *testing.T) {
 				ticks, stepNs = 0, 0
 			case 5: // jitter: clock a bit ahead / behind of the media
 				stepNs += int64(r.Intn(2000000)) - 1000000
+			case 6, 7: // the frame timestamp returns to the current reference point while the wall clock has moved
+				if haveRef {
+					pts, ticks = refPTS, 0
+					stepNs = []int64{0, 1000000, -3000000000, 4000000000, 6000000000, 20000000000, -6000000000}[r.Intn(7)]
+				}
 			}
 			pts += ticks // wraps at the int64 edge like the real arithmetic
 			now += stepNs
@@ -63,6 +69,7 @@ func TestVerifC25(t *testing.T) {
 			o := e.Estimate(pts).UnixNano()
 			if o == cur {
 				resyncs++
+				refPTS, haveRef = pts, true
 			} else {
 				steady++
 			}
